@@ -10,6 +10,7 @@ func init() {
 			{"R13.3", "every listed symbol of a query is visited", ruleRestrictionListFullyVisited},
 			{"R13.5", "the chunk buffer holds whole records of the bucket being scanned", ruleReadBufferWholeRecords},
 			{"R13.6", "projection does not write through the shared column-name list", ruleNameListParameterNotMutated},
+			{"R13.7", "every bucket of a query is described by its own file header", ruleShapesFromOwnFile},
 			// R13.2 (wrong error variable tested in executeQuery) was removed: the flagged branch is
 			// unreachable for every bucket the server can hold, so no failing input exists — by the
 			// task's definition a false alarm, not a finding (DESIGN.md §7).
@@ -80,6 +81,7 @@ func init() {
 			{"R18.6", "lazy header load runs only under its sync.Once", ruleLazyLoadOnce},
 			{"R18.7", "a buffered record write is not torn by a flush", ruleBufferedWriteNotTorn},
 			{"R18.9", "the write-back buffer only holds bytes read from the file", ruleWriteBackBufferIsRead},
+			{"R18.10", "a write command is queued only when it is complete", ruleQueuedCommandImmutable},
 			{"R24.4", "no pointer to a range variable outlives its iteration", ruleNoEscapingRangeVarAddress},
 			{"R18.8", "no new shared mutable package-level state in the request path", ruleNoNewSharedPackageState},
 			{"R28.6", "long-lived byte buffers do not escape", ruleScratchBufferDoesNotEscape},
@@ -224,6 +226,7 @@ func init() {
 		Rules: []Rule{
 			{"R33.1", "only EOF ends the read loop; parse failures are errors; chunk errors propagate", ruleCSVImport},
 			{"R33.5", "the loader's csv.Reader stays strict (no LazyQuotes, field count enforced)", ruleCSVReaderStrict},
+			{"R33.6", "CSV integers are parsed with the width of their column", ruleParseWidthMatchesColumn},
 		},
 	})
 }
